@@ -50,9 +50,23 @@ package rpm
 //@     invariant [C11 C12] plan-still-fresh: !inlined() || nfpm.SpecPlanOK(info.Contents, !old(info.MTime.IsZero()))
 //@     invariant [C01 C03 C08] plan-entries-complete: inlined() || files.SpecPlanInputOK(info.Contents, !old(info.MTime.IsZero()))
 //
-//@ inline func toRelation(items []string) (rel rpmpack.Relations, err error)
-//@   loop 0
-//@     invariant true
+//@ spec func itemLines(items []string, n int) string {
+//@     return foldStr(n, func(i int) string { return items[i] + "\n" })
+//@ }
+//
+//@ spec func relLinesOf(rel rpmpack.Relations) string {
+//@     if len(rel) == 0 { return "" }
+//@     return ghostStr(rel, "relLines")
+//@ }
+//
+//@ func toRelation(items []string) (rel rpmpack.Relations, err error)
+//@   ensures [C11 C12] fresh-result: rel == nil || fresh(rel)
+//@   ensures [C06 C07] no-events: ghostFlag("failed") == old(ghostFlag("failed")) && ghostFlag("clockRead") == old(ghostFlag("clockRead")) && ghostFlag("envRead") == old(ghostFlag("envRead"))
+//@   modifies [C11 C12]
+//@   ensures [C02] every-item-in-order-and-nothing-else: implies(err == nil, relLinesOf(rel) == itemLines(items, len(items)))
+//@   loop 0 (iter int, relations rpmpack.Relations)
+//@     invariant [C11 C12] accumulator-fresh: relations == nil || fresh(relations)
+//@     invariant [C02] relations-so-far: 0 <= iter && iter <= len(items) && relLinesOf(relations) == itemLines(items, iter)
 //
 //@ inline func addChangeLog(info *nfpm.Info, rpm *rpmpack.RPM) (err error)
 //@   loop 0
@@ -133,6 +147,7 @@ package rpm
 //@   ensures [C02 C14] bad-epoch-rejected: implies(old(info.Epoch) != "" && !ufBool("parseUintOK", old(info.Epoch), 10, 32), err != nil)
 //@   ensures [C02 C15] arch: implies(err == nil, meta.Arch == old(info.Arch) && meta.OS == old(info.Platform))
 //@   ensures [C02] identity-fields: implies(err == nil, meta.Licence == old(info.License) && meta.URL == old(info.Homepage) && meta.Vendor == old(info.Vendor) && meta.Group == old(info.RPM.Group))
+//@   ensures [C02] relations-under-the-right-tag: implies(err == nil, relLinesOf(meta.Provides) == old(itemLines(info.Provides, len(info.Provides))) && relLinesOf(meta.Requires) == old(itemLines(info.Depends, len(info.Depends))) && relLinesOf(meta.Recommends) == old(itemLines(info.Recommends, len(info.Recommends))) && relLinesOf(meta.Obsoletes) == old(itemLines(info.Replaces, len(info.Replaces))) && relLinesOf(meta.Suggests) == old(itemLines(info.Suggests, len(info.Suggests))) && relLinesOf(meta.Conflicts) == old(itemLines(info.Conflicts, len(info.Conflicts))))
 //@   ensures [C02] packager: implies(err == nil, meta.Packager == nzs(old(info.RPM.Packager), old(info.Maintainer)))
 //@   ensures [C02] description: implies(err == nil, meta.Description == old(info.Description) && meta.Summary == nzs(old(info.RPM.Summary), firstLine(old(info.Description))))
 //@   ensures [C02 C07] buildhost: implies(err == nil && old(info.RPM.BuildHost) != "", meta.BuildHost == old(info.RPM.BuildHost))
